@@ -63,6 +63,18 @@ CLAIMED = {
         note=BASE_NOTE + 'reference-date string parsing is not modelled (the parsed reference is passed to the model; an independent parser and cftime judge the result); timedelta microsecond rounding is trusted.',
         technique='Lean 4 proof (omega over calendar digit decompositions, induction) + model/implementation correspondence + independent oracle',
         design='§7 C12'),
+    'C02': dict(
+        text=('Lean model of files (dimensions, variables as nested arrays of optional rationals, attribute names) and of '
+              'sliceDimensions; theorems for arrays of any rank and size: the orthogonal selection returns at every '
+              'multi-index exactly the source element at the per-axis selected indices (same order), has the selected '
+              'lengths, is the identity when every axis is taken in full (variables without the selected dimensions), '
+              'every Python selector (negative ints, slices with any bounds/steps as CPython normalises them, lists) '
+              'yields in-range indices, ints keep a length-1 axis. Whole-file correspondence (data, masks, attributes, '
+              'dimension lengths, errors) with sliceDimensions incl. the pointwise multi-list mode on every run, plus an '
+              'independent numpy.take oracle. Three genuine defects repaired by fix: commits.'),
+        note=BASE_NOTE + 'the pointwise (zipped) selection is modelled and compared but has no element-wise theorem yet; keyword order independence is exercised, not proved.',
+        technique='Lean 4 proof (structural induction over nested arrays; omega for slice normalisation) + model/implementation correspondence',
+        design='§7 C02'),
 }
 
 NOT_YET = {}
